@@ -27,7 +27,9 @@ EXPLANATION = (
     "parsers (identical config-key -> keyword maps, mapping key passed as position, list named by the config key); R7.5 "
     "the wildcard match ip_matches_masked_range is a bit-parallel expression (only &, |, ^, ~, ==), so its 8-row "
     "per-bit truth table decides it exactly: match <=> mask bit set or address bit == base bit (a form that is not "
-    "bit-parallel, e.g. with shifts, ends fail-closed in ANALYSIS-ERROR). NOT decided: IPv4Address equality itself and "
+    "bit-parallel, e.g. with shifts or subtraction, is evaluated by the analyser's own expression evaluator on 32-bit words "
+    "built from a few octet patterns: a disagreement with 'ignore the wildcard bits' is reported as a violation with the "
+    "counterexample, sampled agreement proves nothing and ends fail-closed in ANALYSIS-ERROR). NOT decided: IPv4Address equality itself and "
     "bounded-exhaustive verdict equivalence against a reference filter."
 )
 TECHNIQUE = "static: CFG structure of the scan loop, finite truth tables of the rule matcher and bounds tests over stand-in values, sibling agreement of the three front ends"
@@ -389,10 +391,43 @@ def r7_5(ctx: Ctx) -> None:
     bad_nodes = [type(n).__name__ for n in ast.walk(expr) if not isinstance(n, allowed)
                  and not (isinstance(n, ast.Constant) and n.value == 0 and type(n.value) is int)]
     calls = [n for n in ast.walk(expr) if isinstance(n, ast.Call)]
-    if bad_nodes or any(not (isinstance(c.func, ast.Name) and c.func.id == "int" and len(c.args) == 1) for c in calls):
-        raise AnalysisError(f"R7.5: the masked-range test is not bit-parallel (uses {sorted(set(bad_nodes))[:4]}): the per-bit "
-                            "argument does not apply - this clause cannot be decided statically for this form")
     ip_p, base_p, wild_p = params
+    if bad_nodes or any(not (isinstance(c.func, ast.Name) and c.func.id == "int" and len(c.args) == 1) for c in calls):
+        # Not bit-parallel: the per-bit argument does not apply.  The expression is still integer arithmetic over the three
+        # words, so it can be *refuted* by evaluating the syntax tree (our evaluator, nothing of PrimAITE runs) on 32-bit
+        # words built from a few bit patterns per octet; a disagreement with "ignore the wildcard bits" at real width is a
+        # counterexample.  Without one the form stays undecided (exit 2) - sampled agreement proves nothing.
+        octets = (0, 1, 2, 128, 254, 255)
+        words = sorted({(a << 24) | (b << 16) | (c << 8) | d for a in (0, 192) for b in (0, 255) for c in octets for d in octets})
+        masks = sorted({(a << 24) | (b << 16) | (c << 8) | d for a in (0, 255) for b in (0, 255) for c in (0, 1, 254, 255) for d in (0, 1, 254, 255)})
+        cex = None
+        for w in masks:
+            for base in words[:40]:
+                for ip in (base, base ^ 1, base ^ 256, base ^ 0x10000, base ^ 0x01000000, base ^ 0x80, base ^ 0xFE, base ^ 0x0100FE):
+                    ip &= 0xFFFFFFFF
+                    env = {f"int({ip_p})": ip, f"int({base_p})": base, f"int({wild_p})": w, ip_p: ip, base_p: base, wild_p: w}
+                    v = Evaluator(env).ev(expr)
+                    if v is UNKNOWN:
+                        raise AnalysisError(f"R7.5: the masked-range test is not bit-parallel (uses {sorted(set(bad_nodes))[:4]}) and "
+                                            "cannot be evaluated on words either - this clause cannot be decided statically for this form")
+                    want = (ip & ~w & 0xFFFFFFFF) == (base & ~w & 0xFFFFFFFF)
+                    if bool(v) != want:
+                        cex = (ip, base, w, bool(v), want)
+                        break
+                if cex:
+                    break
+            if cex:
+                break
+        if cex is None:
+            raise AnalysisError(f"R7.5: the masked-range test is not bit-parallel (uses {sorted(set(bad_nodes))[:4]}): the per-bit "
+                                "argument does not apply and no counterexample was found on the sampled words - this clause cannot "
+                                "be decided statically for this form")
+        from ipaddress import IPv4Address as _A
+        ctx.fail("R7.5", ctx.key(f, "per-bit table of the wildcard match"), f.loc(),
+                 "wildcard matching differs from 'ignore the bits set in the mask'",
+                 [f"`{unparse(expr)[:100]}`", f"address {_A(cex[0])}, base {_A(cex[1])}, wildcard {_A(cex[2])}: matches={cex[3]}, expected {cex[4]} "
+                  "(word-level evaluation of the expression)"])
+        return
     bad = []
     for ip_b, base_b, wild_b in itertools.product((0, 1), repeat=3):
         env = {f"int({ip_p})": ip_b, f"int({base_p})": base_b, f"int({wild_p})": wild_b, ip_p: ip_b, base_p: base_b, wild_p: wild_b}
